@@ -155,7 +155,31 @@ def reduce_check(ctx, c, outs):
     return None
 
 
+def normals_check(ctx, c, outs):
+    """every large-cell normal orix builds is a positive multiple of 1 + d or 1 - d for a distinguished point d
+    (the hypothesis shape of theorem inside_unpruned_region_in_large_cell)"""
+    from orix.quaternion.orientation_region import _get_large_cell_normals, get_proper_groups
+    from orix.quaternion.symmetry import get_distinguished_points
+    Gl, Gr = groups()[c["kl"]], groups()[c["kr"]]
+    with warnings.catch_warnings():
+        warnings.simplefilter("ignore")
+        s1, s2 = get_proper_groups(Gl, Gr)
+        N = _get_large_cell_normals(s1, s2).data.reshape(-1, 4)
+        D = get_distinguished_points(s1, s2).data.reshape(-1, 4)
+    one = np.array([1.0, 0, 0, 0])
+    walls = np.concatenate([one + D, one - D, one + (-D), one - (-D)]) if len(D) else np.zeros((0, 4))
+    nz = np.linalg.norm(walls, axis=1) > 1e-9
+    walls = walls[nz] / np.linalg.norm(walls[nz], axis=1, keepdims=True)
+    for n in N:
+        u = n / np.linalg.norm(n)
+        if not len(walls) or np.abs(walls - u).max(axis=1).min() > 1e-7:
+            return (f"large-cell normal {n.tolist()} of ({Gl.name}, {Gr.name}) is not a positive multiple of 1 +- d for any "
+                    "distinguished point d")
+    return None
+
+
 SITES = {
+    "large_cell_normals": sites.Site("large_cell_normals", "prop", normals_check),
     "loop_model": sites.Site("loop_model", "corr", loop_check, loop_lines),
     "reduce": sites.Site("reduce", "prop", reduce_check),
 }
@@ -217,6 +241,8 @@ def generate(ctx):
                       nontrivial=Gl.size * Gr.size > 1)
             yield "reduce", c
             if region_defined(Gl, Gr):
+                ctx.count("large_cell_normals", ("n", kl, kr))
+                yield "large_cell_normals", {"kl": kl, "kr": kr}
                 ctx.count("loop_model", ("l", kl, kr, tuple(q[0])), nontrivial=Gl.size * Gr.size > 1)
                 yield "loop_model", {"kl": kl, "kr": kr, "q": q[0]}
     ctx.sample({"site": "reduce", **c})
